@@ -107,11 +107,16 @@ func NewConsumerGroup(parent, fanOutPath string, q FanOutQueue) (ConsumerGroup, 
 	if hasMeta {
 		consumedSeq = int64(metaPage.ReadUint64(consumerGroupConsumedSeqOffset))
 		ackSeq = int64(metaPage.ReadUint64(consumerGroupAcknowledgedSeqOffset))
-		ackOfQueue := q.Queue().AcknowledgedSeq()
-		// if queue ack > consume group ack, need reset use queue ack
-		if ackSeq < ackOfQueue {
-			ackSeq = ackOfQueue
-		}
+	}
+	ackOfQueue := q.Queue().AcknowledgedSeq()
+	// if queue ack > consume group ack, need reset use queue ack(message <= queue ack maybe removed),
+	// new consumer group starts with queue ack too.
+	if ackSeq < ackOfQueue {
+		ackSeq = ackOfQueue
+	}
+	// consumed seq cannot be behind ack seq, e.g. reopen a group which was stopped and overtaken by queue ack.
+	if consumedSeq < ackSeq {
+		consumedSeq = ackSeq
 	}
 	// persist metadata
 	metaPage.PutUint64(uint64(consumedSeq), consumerGroupConsumedSeqOffset)
